@@ -7,6 +7,8 @@ file    : `<r><o>|<rel>|<abs>|<cov>`   r = 1 iff rel_path is relative, o = 1 iff
 answer  : `ok …` (figures; every rate as `num/den`, maps in key order) | `panic` | `bad-op`
 -/
 import GrcovModel.Stats
+import GrcovModel.Stats.Listed
+import GrcovModel.Stats.Printed
 import GrcovModel.Drv.Merge
 namespace Grcov.Drv.C13
 open Grcov Grcov.Drv Grcov.Stats
@@ -42,19 +44,21 @@ def showCD (s : CDStats) : String := s!"{s.total},{s.covered},{s.missed},{showRa
 
 def childLabel (parent name : Name) : Name := if parent.isEmpty then name else parent ++ 47 :: name
 
-def flattenFiles (parent : Name) (fs : List CDFile) : List String :=
-  fs.map fun f => s!"f{toHex (childLabel parent f.name)}={showCD f.stats}"
+/-- the files LISTED in the `children` object of their directory (`into_json`: one map for files
+and directories, a later insert replaces): see `Stats/Listed.lean` -/
+def flattenFiles (parent : Name) (fs : List CDFile) (subNames : List Name) : List String :=
+  (listedFiles fs subNames).map fun f => s!"f{toHex (childLabel parent f.name)}={showCD f.stats}"
 
 def flattenForest (parent : Name) : Forest → List String
   | .nil => []
   | .dir n st fs sub next =>
     let me := childLabel parent n
-    s!"d{toHex me}={showCD st}" :: (flattenFiles me fs ++ flattenForest me sub ++
+    s!"d{toHex me}={showCD st}" :: (flattenFiles me fs sub.dirNames ++ flattenForest me sub ++
       flattenForest parent next)
 
 def showCovdir (r : CDRoot) : String :=
   joinWith " " (s!"d={showCD r.stats}" ::
-    sortStrings (flattenFiles [] r.files ++ flattenForest [] r.sub))
+    sortStrings (flattenFiles [] r.files r.sub.dirNames ++ flattenForest [] r.sub))
 
 /-! cobertura -/
 def showCobRates (s : CobStats) : String := s!"{showRate s.lineRate},{showRate s.branchRate}"
@@ -115,8 +119,21 @@ def handle (op : String) (args : List String) : String :=
       | .panic _ => "panic"
     | _ => "bad-op"
 
+/-- `printed <writer> <precision> <num> <den> <figure hex>` → is the printed figure admissible for the
+exact rate num/den (`Stats/Printed.lean`) -/
+def handlePrinted : List String → String
+  | [w, p, n, d, s] =>
+    match p.toNat?, n.toNat?, d.toNat?, fromHex s with
+    | some p, some n, some d, some s =>
+      match tolOf w p with
+      | some t => if printedOK t ⟨n, d⟩ s then "1" else "0"
+      | none => "bad-op"
+    | _, _, _, _ => "bad-op"
+  | _ => "bad-op"
+
 def step (line : String) : String :=
   match (line.trimAscii.toString.splitOn " ").filter (· ≠ "") with
+  | "printed" :: args => handlePrinted args
   | op :: args => handle op args
   | [] => "bad-op"
 
